@@ -243,6 +243,86 @@ Section PyProofs.
         rewrite get_put_other; [exact G'|]. intro X; subst k. discriminate.
   Qed.
 
+  (* ---------------------------------------------------------------- no premise on the user's keys *)
+  (* the first key, in dict order, that lower-cases like [key]: what _match_key finds *)
+  Fixpoint first_key (h : hd) (key : list byte) : option (list byte) :=
+    match h with
+    | [] => None
+    | (k, v) :: t => if bytes_eqb (lower k) (lower key) then Some k else first_key t key
+    end.
+
+  Lemma first_key_lower (h : hd) key k0 : first_key h key = Some k0 -> bytes_eqb (lower k0) (lower key) = true.
+  Proof.
+    induction h as [|[k v] t IH]; simpl; [discriminate|].
+    destruct (bytes_eqb (lower k) (lower key)) eqn:E; [intro X; inversion X; subst; exact E | exact IH].
+  Qed.
+
+  Lemma match_key_first (h : hd) key k0 : first_key h key = Some k0 -> match_key pyval h key = get k0 h.
+  Proof.
+    induction h as [|[k v] t IH]; simpl; [discriminate|].
+    destruct (bytes_eqb (lower k) (lower key)) eqn:E.
+    - intro X. inversion X; subst. rewrite bytes_eqb_refl. reflexivity.
+    - intro X. rewrite (IH X). beq k0 k; [|reflexivity].
+      subst k0. rewrite (first_key_lower t key k X) in E. discriminate.
+  Qed.
+
+  Lemma first_key_put (h : hd) k0 v key : bytes_eqb (lower k0) (lower key) = false ->
+    first_key (put k0 v h) key = first_key h key.
+  Proof.
+    intro N. induction h as [|[k v'] t IH]; simpl.
+    - rewrite N. reflexivity.
+    - beq k0 k; simpl.
+      + subst k. rewrite N. reflexivity.
+      + rewrite IH. reflexivity.
+  Qed.
+
+  Lemma no_delim_any hdr dt h' n :
+    dict_equiv pyval pyeq h' (mkh hdr dt) ->
+    match_key pyval (put (B "_SIZE") (v_int n) h') (B "_delim") = None.
+  Proof.
+    intros Q. apply match_key_none. intros k I.
+    beq k (B "_SIZE"); [subst; reflexivity|].
+    apply in_keys_get in I. rewrite get_put_other in I by (apply bytes_eqb_false; exact E).
+    apply (equiv_get_none _ _ _ Q) in I. apply head_key_cases in I.
+    destruct I as [->|[->|[D _]]]; try reflexivity.
+    change (lower (B "_delim")) with (B "_delim").
+    unfold is_stripped, reserved_lower in D. simpl existsb in D.
+    repeat (let X := fresh "X" in apply orb_false_iff in D as [X D]). exact X1.
+  Qed.
+
+  (* the round trip for EVERY user header, given that in the evaluated dict the first key that
+     lower-cases to _dtype is _DTYPE itself (true of what pformat prints: it sorts the keys and
+     _DTYPE sorts before every other spelling; decided on the real text by Uncond.hpf_check_all) *)
+  Theorem roundtrip_ordered hdr dt rows h' :
+    hdr_text_ok (pformat (mkh hdr dt)) = true ->
+    pyeval (join [sp] (split_nl (pformat (mkh hdr dt)))) = Some h' ->
+    dict_equiv pyval pyeq h' (mkh hdr dt) ->
+    (forall v, get (B "_DTYPE") h' = Some v -> np_dtype v = Some dt) ->
+    first_key h' (B "_dtype") = Some (B "_DTYPE") ->
+    rows <> [] -> rows_fit dt rows -> 0 < rowsize dt ->
+    exists out, sfile_read pyval v_str v_int np_dtype pyeval
+                  (sfile_write pyval v_str v_descr pformat hdr dt rows) = Ok out
+                /\ roundtrip_ok pyval pyeq v_int np_dtype hdr dt rows out.
+  Proof.
+    intros T Ev Q Dt FK NE F R.
+    destruct (equiv_get_some _ _ _ _ Q (head_dtype hdr dt)) as [dv [Gd _]].
+    set (n := Z.of_nat (length rows)).
+    exists (dt, rows, put (B "_SIZE") (v_int n) h'). split.
+    - unfold sfile_read, sfile_write. rewrite sfile_read_raw_spec by exact T. cbn [bind].
+      rewrite Ev. rewrite (finish_header_eq hdr dt h' _ Q).
+      rewrite (no_delim_any hdr dt h' _ Q).
+      rewrite (match_key_first _ (B "_dtype") (B "_DTYPE")) by (rewrite first_key_put by reflexivity; exact FK).
+      rewrite get_put_other by discriminate. rewrite Gd, (Dt dv Gd).
+      rewrite sfile_file_eq by exact T.
+      rewrite recfile_read_spec; auto.
+    - unfold roundtrip_ok. split; [reflexivity|]. split; [reflexivity|].
+      split; [apply get_put_same|]. split.
+      + exists dv. rewrite get_put_other by discriminate. split; [exact Gd | exact (Dt dv Gd)].
+      + intros k v Rk G. rewrite <- (user_keys_kept hdr dt k Rk) in G.
+        destruct (equiv_get_some _ _ _ _ Q G) as [v' [G' P]]. exists v'. split; [|exact P].
+        rewrite get_put_other; [exact G'|]. intro X; subst k. discriminate.
+  Qed.
+
   (* ---------------------------------------------------------------- any memory layout *)
   Lemma view_rows_fit dt v : in_bounds v = true -> Z.of_nat (v_item v) = rowsize dt ->
     rows_fit dt (view_rows v).
